@@ -249,12 +249,12 @@ Qed.
     initializer array is the old stack followed by the secondaries pushed by
     slot 0, 1, ... (each slot wrote exactly its own window, nothing was
     overwritten, no default entry is left), and ids come from the counters *)
-Lemma secondaries_layout : forall cfg ops s s',
-  exec cfg (init_state cfg) ops = Some s -> extend_from_secondaries cfg s = Ok s' ->
+Lemma secondaries_layout_inv : forall cfg s s',
+  InvA cfg s -> extend_from_secondaries cfg s = Ok s' ->
   let sp := spec_all (charge_order cfg) (slots s) (next_id s) in
   slots s' = fst (fst sp) /\ stack s' = stack s ++ snd (fst sp) /\ next_id s' = snd sp.
 Proof.
-  intros cfg ops s s' Hex H sp. pose proof (counters_exact cfg ops s Hex) as ((Hl & Hp & Hn) & Hlive & _).
+  intros cfg s s' ((Hl & Hp & Hn) & Hlive & _) H sp.
   unfold extend_from_secondaries in H.
   destruct (phase_eqb (ph s) Interacted) eqn:Hph; cbn [negb] in H; [|discriminate].
   apply phase_eqb_eq in Hph. rewrite Hph in Hlive.
@@ -270,6 +270,14 @@ Proof.
   rewrite Nat.sub_0_r in Harr. specialize (Harr eq_refl). destruct Harr as (R1 & R2 & R3).
   destruct (proc_all _ _ _ _ _ _ _ _) as [slots' ps] eqn:Hpa. cbn [fst snd] in *.
   inversion H; subst s'; clear H. cbn. auto.
+Qed.
+
+Lemma secondaries_layout : forall cfg ops s s',
+  exec cfg (init_state cfg) ops = Some s -> extend_from_secondaries cfg s = Ok s' ->
+  let sp := spec_all (charge_order cfg) (slots s) (next_id s) in
+  slots s' = fst (fst sp) /\ stack s' = stack s ++ snd (fst sp) /\ next_id s' = snd sp.
+Proof.
+  intros cfg ops s s' Hex H. apply secondaries_layout_inv; [eapply counters_exact; eauto|exact H].
 Qed.
 
 (** exactly_once *)
